@@ -33,7 +33,9 @@ and C06 (save ∘ load ∘ save).  Helper lemmas: Lemmas/RoundTrip.lean.
  4. C17: `prefix_sound_names` (the name of a zeroed section; `NameTableNul img`).
  5. C06: `save_load_save_noseg`; `SaveLoadSaveStatement` (with segments) stated, not proved.
 Not proved here: nested segments (segment file ranges inside the file: `SavedSane.segInside` stays a
-hypothesis of the general forms), save ∘ load ∘ save with segments.
+hypothesis of the general forms), save ∘ load ∘ save with segments.  Both are continued in
+Props/Compose2.lean (`save_load_save_flat`, `reload_reports_saved_nested`,
+`validate_silent_reloaded_nested_unconditional`; helper lemmas Lemmas/RoundTrip2.lean, Props/C06Runs.lean).
 -/
 import ElfioVerif.Lemmas.RoundTrip
 import ElfioVerif.Props.C06
